@@ -11,12 +11,12 @@ import (
 )
 
 type failure struct {
-	o       *Obligation
-	reason  string
-	replay  *ReplayResult
-	known   *knownFinding
-	file    string
-	fnErr   string
+	o      *Obligation
+	reason string
+	replay *ReplayResult
+	known  *knownFinding
+	file   string
+	fnErr  string
 }
 
 func globMatch(pat, s string) bool {
@@ -230,25 +230,25 @@ func buildReport(id, tier string, seed int, claim *Claim, results []*FnResult, a
 		loadSecs += e.loadSecs
 	}
 	cov := map[string]any{
-		"obligations":  nObl - nKnown,
-		"discharged":   nDis,
-		"checker_cmd":  fmt.Sprintf("./check %s %s", id, tier),
-		"trusted_base": trusted,
-		"samples":      samples,
-		"functions_under_contract": fuc,
-		"backends":     backends,
-		"discharged_by_backend": byBackend,
-		"solver_time_s": round2(solverTime),
-		"load_time_s":  round2(loadSecs),
-		"vacuity_covers": map[string]int{"total": nCover, "sat": nCoverOK, "undecided": nCoverUnknown},
-		"known_finding_obligations": nKnown,
-		"failed":       failedNames,
-		"abstractions": abs,
-		"not_decided_clauses": claim.NotDecided,
-		"bounded":      claim.Bounded,
-		"replays_run":  nReplayed,
+		"obligations":                    nObl - nKnown,
+		"discharged":                     nDis,
+		"checker_cmd":                    fmt.Sprintf("./check %s %s", id, tier),
+		"trusted_base":                   trusted,
+		"samples":                        samples,
+		"functions_under_contract":       fuc,
+		"backends":                       backends,
+		"discharged_by_backend":          byBackend,
+		"solver_time_s":                  round2(solverTime),
+		"load_time_s":                    round2(loadSecs),
+		"vacuity_covers":                 map[string]int{"total": nCover, "sat": nCoverOK, "undecided": nCoverUnknown},
+		"known_finding_obligations":      nKnown,
+		"failed":                         failedNames,
+		"abstractions":                   abs,
+		"not_decided_clauses":            claim.NotDecided,
+		"bounded":                        claim.Bounded,
+		"replays_run":                    nReplayed,
 		"replays_confirmed_on_real_code": nReplayConfirmed,
-		"explanation":  "every obligation is generated from the SSA of /repo's current working tree and discharged by an SMT solver (unsat of the negated VC); covers are satisfiability checks of the assumptions (vacuity guard)",
+		"explanation":                    "every obligation is generated from the SSA of /repo's current working tree and discharged by an SMT solver (unsat of the negated VC); covers are satisfiability checks of the assumptions (vacuity guard)",
 	}
 	ev := map[string]any{
 		"property_id": id, "tier": tier, "seed": seed, "level": "proof", "coverage": cov,
